@@ -23,5 +23,10 @@ CONSTANTS
   FreshPerCall = TRUE
   ShareChoices = {FALSE}
   PerWriterWrapper = FALSE
+  FlushKinds = {"none"}
+  ErrKinds = {"plain"}
+  FlushAtEnd = FALSE
+  RetryKinds = {}
+  MaxRetry = 0
 INVARIANTS TypeOK CountExact NoWriteAfterFailure PrefixDelivered FirstError NoFailEqualsString FailsAtCapacity StringNeverPanics CallStartsFresh HealthyAfterFailure EmitVector
 CHECK_DEADLOCK FALSE
